@@ -45,6 +45,10 @@ def rows_ms(arr, mask=None):
     return collections.Counter(gens.rowkey(r) for r in a)
 
 
+def crash_signature(case, c):
+    return "crash/%s/%s/%s" % (case.get("kind"), "system-loss" if case.get("system") else "single-loss", c.etype)
+
+
 def run_case(case, rec):
     if not rarsim.hook_available():
         rec.inconcl("guarded hook JINNS_VERIF is not active in jinns.solver._rar")
@@ -79,6 +83,18 @@ def run_case(case, rec):
         # ---- expected additions
         exp_add = {}
         tie = False
+        if case.get("system") and pk != "ode":
+            # PDE systems: the code ranks (sum of the equations' residuals)^2, the ODE branch sum of squares: the
+            # statement does not say which for several equations - only the store invariants are checked there
+            rec.count("system_pde_steps_store_checks_only")
+            for s in streams:
+                st_b, st_a, pb, pa = before[s], after[s], before["p_" + s], after["p_" + s]
+                changed = np.array([not np.array_equal(np.asarray(st_b[j]), np.asarray(st_a[j])) for j in range(len(st_b))])
+                if np.any(changed & (pb > 0)):
+                    rec.violation(sig + "/active-slot-overwritten/" + s, "%s: step %d overwrote active %s slots" % (label, step_no, s))
+                if rows_ms(st_b, pb) - rows_ms(st_a, pa):
+                    rec.violation(sig + "/active-point-lost/" + s, "%s: step %d lost active %s points" % (label, step_no, s))
+            return
         if pk == "ode":
             ct = np.asarray(ev["candidates_t"]).reshape(-1)
             r = np.array([rarsim.sq_residual(B, [t]) for t in ct])
